@@ -1,4 +1,4 @@
-import Spine.Dispatch
+import Spine.DispatchTree
 /-! Line-protocol driver of `Spine.Disp` (C01, C03). The harness first describes the world it built from the real
     code (`clear`, then one `loc` line per local feature and one `rem` line per feature every peer announces),
     then runs histories: `reset r u e o` (defect flags: resultOnResult, unbindDisjunct, entRemovalAnyPeer, overviewPanics) followed by
@@ -40,12 +40,14 @@ structure Conf where
   loc : List LF := []
   rem : List RF := []
   data : List (Addr × Nat × Nat) := []     -- initial values: feature, function, value id
+  nm : List (Nat × Nat) := []              -- initial value ids of node management's computed data: function, value id
 
 def freshPeer (c : Conf) : Peer := { feats := c.rem, msgNum := 3, req := [(2, nmAddr, 1000), (3, nmAddr, 902)] }
 
 def initW (c : Conf) (cfg : Cfg) : W :=
   { loc := c.loc, peers := fun _ => ⟨[], 0, []⟩, binds := [], subs := [], cfg := cfg, fresh := freshPeer c,
-    data := c.data.foldl (fun f e => setData f e.1 e.2.1 e.2.2) (fun _ _ => 0) }
+    data := c.data.foldl (fun f e => setData f e.1 e.2.1 e.2.2) (fun _ _ => 0),
+    nmData := applyNm (fun _ => 0) c.nm }
 
 def flag (s : String) : Bool := s == "1"
 
@@ -59,7 +61,10 @@ def mkDg (src dst ctr ref : String) (c : Cls) (ack fn : String) (rest : List Str
   { src := parseAddr src, dst := parseAddr dst, ctr := if ctr == "-" then none else ctr.toNat?,
     ref := if ref == "-" then none else ref.toNat?, cls := c, ack := ack == "1", fn := fn.toNat!,
     bad := rest.contains "bad", val := ((tokVal rest "val=").bind String.toNat?).getD 0, noErr := rest.contains "noerr",
-    dstDev := dd }
+    dstDev := dd,
+    srcDev := match tokVal rest "sd=" with
+      | none => some 0
+      | some t => t.toNat? }
 
 def parseOp (toks : List String) : Option Op :=
   match toks with
@@ -80,6 +85,25 @@ def parseOp (toks : List String) : Option Op :=
   | ["setdata", a, fn, v] => some (.setData (parseAddr a) fn.toNat! v.toNat!)
   | _ => none
 
+def parseLF (t : String) : Option LF :=
+  match t.splitOn "|" with
+  | [ent, feat, typ, role, fds, ops] =>
+    (parseRole role).map fun r =>
+      { ent := parseEnt ent, feat := feat.toNat!, typ := typ.toNat!, role := r, fds := parseList fds, ops := parseOps ops, nm := false }
+  | _ => none
+
+/-- the local tree operations of `Spine/DispatchTree.lean` -/
+def parseTOp (toks : List String) : Option TOp :=
+  match toks with
+  | ["addfeat", lf, v] => (parseLF lf).map fun l => .addFeat l v.toNat!
+  | ["addfn", a, fn, wr, v] => some (.addFn (parseAddr a) fn.toNat! (wr == "1") v.toNat!)
+  | ["descr", a, v] => some (.descr (parseAddr a) v.toNat!)
+  | ["adduc", v] => some (.addUc v.toNat!)
+  | ["remuc", v] => some (.remUc v.toNat!)
+  | "addent" :: v :: lfs => if (lfs.map parseLF).all Option.isSome then some (.addEnt (lfs.filterMap parseLF) v.toNat!) else none
+  | ["rement", e, vu, v] => some (.remEnt (parseEnt e) vu.toNat! v.toNat!)
+  | _ => (parseOp toks).map .op
+
 partial def loop (h : IO.FS.Stream) (out : IO.FS.Stream) (c : Conf) (w : W) : IO Unit := do
   let line ← h.getLine
   if line.isEmpty then out.flush; return ()
@@ -97,14 +121,18 @@ partial def loop (h : IO.FS.Stream) (out : IO.FS.Stream) (c : Conf) (w : W) : IO
       | some r => ({ c with rem := c.rem ++ [{ ent := parseEnt ent, feat := feat.toNat!, fds := parseList fds, typ := typ.toNat!, role := r }] }, w, "ok")
       | none => (c, w, "bad-op")
     | ["data", a, fn, v] => ({ c with data := c.data ++ [(parseAddr a, fn.toNat!, v.toNat!)] }, w, "ok")
+    | ["nmdata", fn, v] => ({ c with nm := c.nm ++ [(fn.toNat!, v.toNat!)] }, w, "ok")
+    | ["ops", a] => (c, w, match locF w (parseAddr a) with
+        | some lf => if lf.ops.isEmpty then "-" else ",".intercalate (lf.ops.map fun o => s!"{o.1}:{if o.2 then 1 else 0}")
+        | none => "none")
     | ["reset", r, u, e, o] =>
       (c, initW c { resultOnResult := flag r, unbindDisjunct := flag u, entRemovalAnyPeer := flag e, overviewPanics := flag o }, "reset")
     | ["binds"] => (c, w, if w.binds.isEmpty then "-" else "; ".intercalate (w.binds.map fun b => s!"{showAddr b.1}<-{b.2.1}:{showAddr b.2.2}"))
     | ["subs"] => (c, w, if w.subs.isEmpty then "-" else "; ".intercalate (w.subs.map fun b => s!"{showAddr b.1}<-{b.2.1}:{showAddr b.2.2}"))
     | _ =>
-      match parseOp toks with
+      match parseTOp toks with
       | some op =>
-        let (w', outs) := step w op
+        let (w', outs) := tstep w op
         (c, w', showOuts outs ++ (if w'.written.length > w.written.length then " W" else ""))
       | none => (c, w, "bad-op")
   out.putStrLn ans
